@@ -217,10 +217,14 @@ class Prov:
             return frozenset({"LIT"}) if ok else frozenset({f"UNK:{name}"})
         out = set()
         binds = self._assignments(fi, name)
-        key = ("name", fi.fq, name)
+        san = self._sanitised_use(e, fi, name)
+        key = ("name", fi.fq, name, san is not None)
         if key in self._memo:
             return self._memo[key]
         self._memo[key] = frozenset({"LIT"})  # cycle guard (x = x + ...)
+        if san is not None:
+            # definitions before the guarded re-definition are killed for this (truthy) use
+            binds = [b for b in binds if getattr(b[1], "lineno", 0) >= san.lineno]
         for kind, val, idx in binds:
             if kind in ("assign", "aug"):
                 out |= self._component(val, idx, fi, d, env)
@@ -233,6 +237,22 @@ class Prov:
         res = frozenset(out or {f"UNK:{name}"})
         self._memo[key] = res
         return res
+
+    def _sanitised_use(self, use: ast.Name, fi: FuncInfo, name: str):
+        """Idiom `x = raw; if x: x = f(x)  ...  if x: use(x)`: at a use guarded by the
+        truthiness of x, after the guarded re-definition, only that re-definition
+        reaches with a truthy value.  Returns the re-definition's value expr or None."""
+        from .astutil import guards_of
+        if not any(isinstance(t, ast.Name) and t.id == name and pol for t, pol in guards_of(use, stop=fi.node)):
+            return None
+        for x in walk_own(fi.node):
+            if isinstance(x, ast.If) and isinstance(x.test, ast.Name) and x.test.id == name and not x.orelse \
+                    and getattr(x, "end_lineno", 0) <= getattr(use, "lineno", 0):
+                for st in x.body:
+                    if isinstance(st, ast.Assign) and len(st.targets) == 1 and isinstance(st.targets[0], ast.Name) \
+                            and st.targets[0].id == name and isinstance(st.value, ast.Call):
+                        return st.value
+        return None
 
     def _component(self, val, idx, fi, d, env):
         """Classification of component idx of the value of expression val."""
